@@ -142,7 +142,7 @@ def gen_history(rng, length):
                 continue
             iid = int(rng.choice(cand))
             used.add(iid)
-            cnt = int(rng.integers(1, 4))
+            cnt = int(rng.integers(0, 4))      # 0: a tomogram in which nothing was picked
             args = [iid, cnt]
             cur += cnt
         elif op == 2:
@@ -271,6 +271,20 @@ def run_case(inp):
         scs = b.score([tmpl], alignment_model=Probe)[0]
         if any(abs(float(a) - w) > 1e-2 for a, w in zip(scs, want)):
             V("score-rows", f"score rows {list(map(float, scs[:8]))} do not follow the molecules {want[:8]}")
+        # binned loader: every molecule still reads from the tomogram it was registered with
+        for compute in (True, False):
+            try:
+                bb = b.binning(2, compute=compute)
+                arr = np.asarray(bb.asnumpy())
+            except Exception as e:  # noqa: BLE001
+                V("no-error", f"binning(2, compute={compute}) raised {type(e).__name__}: {str(e)[:100]}")
+                break
+            src = [int(round(float(arr[k].mean()) / 8.0)) // 100 - 1 for k in range(arr.shape[0])]   # bin_image sums 2x2x2 voxels
+            bids = [int(x) for x in bb.molecules.features["image-id"].to_list()]
+            if src != bids or bids != ids:
+                V("binning-images", f"after binning(2, compute={compute}) molecules of images {ids[:8]} are loaded "
+                                    f"from tomograms {src[:8]}")
+                break
         # groups: partition, re-iterable, derived groups too
         g = b.groupby((pl.col("tag") % 2).alias("k"))
         for label, grp in (("groupby", g), ("groupby.filter", g.filter(pl.col("tag") >= 0)), ("groupby.head", g.head(50)),
@@ -298,6 +312,8 @@ def oracle(rng, thorough, deep=False, hints=None):
     # the classic interleaved batch: two tomograms, sorted so that ids alternate
     cases.append(dict(ops=[[1, [0, 3]], [1, [1, 3]], [3, [7, 997, 0]]]))
     cases.append(dict(ops=[[1, [5, 2]], [2, [3]], [1, [1, 2]], [3, [3, 997, 1]], [6, [5]]]))
+    # a tomogram without molecules registered before populated ones
+    cases.append(dict(ops=[[1, [2, 0]], [1, [0, 2]], [1, [7, 0]], [1, [1, 3]]]))
     for it in range(24 if big else 8):
         cases.append(dict(ops=[[o, a] for o, a in gen_history(rng, int(rng.integers(2, 9)))]))
     for b in (hints or {}).get("k2", []):
